@@ -418,14 +418,10 @@ def m_tuple(I, args, kwargs):
         c = I.cell(v)
         if isinstance(c, ListCell):
             return STup(c.t, c.ek)
-    if isinstance(v, GenVal) and v.kind == 'genexp':
-        n, fr = v.payload
-        saved = I.frame
-        I.frame = fr
-        try:
-            r = I.comprehension(n)
-        finally:
-            I.frame = saved
+    if isinstance(v, GenVal) and v.kind == 'evaluated':
+        r = v.payload
+        if isinstance(r, list):
+            return tuple(r)
         return m_tuple(I, [r], {})
     raise OutOfReach('tuple(%r)' % (v,))
 
@@ -447,6 +443,11 @@ def m_list(I, args, kwargs):
             return I.alloc(ListCell(t=c.t, ek=KINT))
     if isinstance(v, SSeq) and not issubclass(v.cls, str):
         return I.alloc(ListCell(t=v.t, ek=KINT))
+    if isinstance(v, GenVal) and v.kind == 'evaluated':
+        r = v.payload
+        if isinstance(r, list):
+            return I.alloc(ListCell(items=list(r)))
+        return m_list(I, [r], {})
     if isinstance(v, GenVal):
         from .gens2 import consume_generator
         return consume_generator(I, v, 'list')
@@ -820,6 +821,11 @@ def m_at_end(I, args, kwargs):
     return I.wrap_bool(c.pos == z3.Length(c.data))
 
 
+def m_is_prefix(I, args, kwargs):
+    p_, s_ = I.seq_term(args[0]), I.seq_term(args[1])
+    return I.wrap_bool(z3.And(z3.Length(p_) <= z3.Length(s_), p_ == z3.Extract(s_, z3.IntVal(0), z3.Length(p_))))
+
+
 def m_clsof(I, args, kwargs):
     return I.pytype(args[0])
 
@@ -888,6 +894,7 @@ def build_models(I):
     reg(_dsl.rest, m_rest)
     reg(_dsl.at_end, m_at_end)
     reg(_dsl.clsof, m_clsof)
+    reg(_dsl.is_prefix, m_is_prefix)
     reg(_dsl.le_int, m_le_int)
     reg(_dsl.be_int, m_be_int)
     reg(_dsl.le_bytes, m_le_bytes)
